@@ -2,7 +2,7 @@
 from vlib import Rng
 import sockgen as G
 
-RULE = ("family srv: the real ServerPrivate::process wiring + Handler trees (depth <= 3, <= 3 redirects and <= 3 sub-handlers per node, "
+RULE = ("also: several simultaneously open connections to one server with interleaved operations (family srvi); " "family srv: the real ServerPrivate::process wiring + Handler trees (depth <= 3, <= 3 redirects and <= 3 sub-handlers per node, "
         "0-3 accepting/refusing instrumented middleware per node) over a pattern vocabulary (literals, classes, captures, wildcards; "
         "sub-handler patterns start-anchored) x request paths over a segment alphabet incl. percent-encoded reserved/control characters; "
         "QRegExp answers tabulated by calling QRegExp directly; non-trivial = distinct case")
@@ -105,6 +105,20 @@ def build(tier, seed, ctx, refuse_ok, n):
                 conns.append([G.Construct, G.Feed(h2), G.Turn])
                 metas.append([path, ps])
             yield ("srvm", [tree, conns, G.env_for(ver, utab, [raw]) + [rxtab], [6, metas]], "multi-connection")
+            if rng.chance(1, 2):
+                # the same connections, simultaneously open, their operations interleaved (heads split so that several are half-read)
+                conns2 = []
+                for (pth, ps) in metas:
+                    h2 = b"GET " + raw + b" HTTP/1.1\r\n" + (b"X-Pass: 1\r\n" if ps else b"") + b"\r\n"
+                    k = rng.range(1, len(h2) - 1)
+                    conns2.append([G.Construct, G.Feed(h2[:k]), G.Feed(h2[k:]), G.Turn])
+                sched = [i for i in range(len(conns2)) for _ in range(4)]
+                rng.shuffle(sched) if hasattr(rng, "shuffle") else None
+                if not hasattr(rng, "shuffle"):
+                    for a in range(len(sched) - 1, 0, -1):
+                        b = rng.below(a + 1)
+                        sched[a], sched[b] = sched[b], sched[a]
+                yield ("srvi", [sched, [tree, conns2, G.env_for(ver, utab, [raw]) + [rxtab], [6, metas]]], "interleaved-connections")
 
 
 def cases(tier, seed, ctx=None):
